@@ -238,6 +238,12 @@ pub fn check(thorough: bool, _seed: u64) -> Check {
             d[n - 1] = d[n - 2];
             long.push(d);
         }
+        // big operands around size thresholds (centred lists contain +0.0 / -0.0, variants with duplicate runs), paired with each other
+        for e in big_shapes(false, if thorough { 129 } else { 65 }) {
+            if e.len() >= 32 && e.len() != 34 && e.len() != 66 && (e.len() != 33 && e.len() != 65 || e.windows(2).all(|w| w[0] < w[1]) || e[e.len() / 2] == e[e.len() / 2 - 1]) {
+                long.push(e);
+            }
+        }
         phases.push(sym_phase("provenance-long-operands", long, json!({"operands": "every ordered pair among 1..n (n=6,7,9,17,33; 12,14,65,129 thorough), its even / odd / half-shifted sub-grids, its first half, its last end alone, and a copy with a duplicated last end"}), false));
     }
     if thorough {
